@@ -1,13 +1,13 @@
 SPECIFICATION Spec
 CONSTANTS
   Confs <- Shapes
-  InitRegs <- OneShapeRegs
+  InitRegs <- QuickRegs
   ScopeNames = {"a", "ab"}
-  MaxScopeDepth = 3
+  MaxScopeDepth = 0
   MaxStack = 4
-  BindVals <- BV123
-  MaxBindings = 5
-  Enabled = {"Bind", "EnterScope", "ExitScope", "Call", "Finalize", "Unlock"}
+  BindVals <- BV1
+  MaxBindings = 2
+  Enabled = {"Bind", "Call", "Finalize"}
   NameOrder <- Names6
   HookUniverse = {}
   BindApis = {"tuple"}
@@ -16,8 +16,8 @@ CONSTANTS
   BindFilter <- AnyBind
   ConstVals = {}
   QuerySpellings = {}
-  CallMaxExtra = 1
-  CallExtraKw = {"z"}
+  CallMaxExtra = 0
+  CallExtraKw = {}
   CallsWithReq = FALSE
   DevKwEval = FALSE
 CONSTRAINT ExportConstraint
